@@ -34,6 +34,8 @@ RULE = ('case = 1-3 initial datasets (shape () to 4-D, 0-4 cells per dimension, 
         'number / an array with a negative cell as right operand, or an array/dataset right '
         'operand with >= 2 cells, or the history has >= 3 operations including a copy; distinct '
         '= structural hash of the case')
+RULE_ADDENDA = (' Also: right operands that numpy broadcasts, operands of dtype uint8 / uint64 / int64 / bool, right datasets with or without bins, C / Fortran / strided / negative-stride layouts, one binary operation in five in its augmented form (x += y: the object on the left is an operand).')
+RULE = RULE + RULE_ADDENDA
 ASSUMPTIONS = [
     'numpy float64 arithmetic and math.hypot are the reference for the plain array operation',
     'cells where a straightforward double evaluation of the textbook formula over/underflows '
